@@ -1141,6 +1141,18 @@ func (cfg *Config) glob(base, pat string) ([]string, error) {
 			}
 			continue
 		case !pattern.HasMeta(part, 0):
+			// Without wildcards the element names a single file,
+			// but its quoted characters are still escaped, as in \?q for "?"q.
+			if strings.Contains(part, `\`) {
+				var sb strings.Builder
+				for i := 0; i < len(part); i++ {
+					if part[i] == '\\' && i+1 < len(part) {
+						i++
+					}
+					sb.WriteByte(part[i])
+				}
+				part = sb.String()
+			}
 			var newMatches []string
 			for _, dir := range matches {
 				match := dir
